@@ -1,0 +1,261 @@
+//! Verification hooks: add-only, thin entry points to crate-private parser kernels.
+//!
+//! Compiled only with `--cfg toml_verif`; not part of the public API and without any effect on
+//! the rest of the crate.  Every function here *only calls* the real kernel on a fresh input.
+
+#![allow(missing_docs)]
+#![allow(clippy::wildcard_imports)]
+
+use std::borrow::Cow;
+
+use crate::parser::prelude::*;
+use crate::parser::{datetime, key, numbers, strings, trivia, value};
+use winnow::stream::ContainsToken as _;
+
+/// What a kernel did with the input
+#[derive(Debug, Clone, PartialEq)]
+pub enum Outcome<O> {
+    /// Output and number of bytes consumed
+    Ok(O, usize),
+    /// Recoverable error (`ErrMode::Backtrack`)
+    Backtrack,
+    /// Unrecoverable error (`ErrMode::Cut`)
+    Cut,
+    /// `ErrMode::Incomplete` (never produced for complete inputs)
+    Incomplete,
+}
+
+impl<O> Outcome<O> {
+    pub fn is_ok(&self) -> bool {
+        matches!(self, Outcome::Ok(..))
+    }
+    pub fn consumed(&self) -> Option<usize> {
+        match self {
+            Outcome::Ok(_, n) => Some(*n),
+            _ => None,
+        }
+    }
+}
+
+#[inline]
+fn finish<O>(start_len: usize, input: &Input<'_>, res: ModalResult<O>) -> Outcome<O> {
+    use winnow::stream::Stream as _;
+    match res {
+        Ok(o) => Outcome::Ok(o, start_len - input.eof_offset()),
+        Err(winnow::error::ErrMode::Backtrack(_)) => Outcome::Backtrack,
+        Err(winnow::error::ErrMode::Cut(_)) => Outcome::Cut,
+        Err(winnow::error::ErrMode::Incomplete(_)) => Outcome::Incomplete,
+    }
+}
+
+/// Run `parser` once on a fresh input over `s` (the open recursion depth starts at `depth`)
+#[inline]
+fn run_at_depth<'i, O>(
+    mut parser: impl ModalParser<Input<'i>, O, ContextError>,
+    s: &'i str,
+    _depth: usize,
+) -> Outcome<O> {
+    let mut input = new_input(s);
+    #[cfg(not(feature = "unbounded"))]
+    {
+        input.state = RecursionCheck::verif_with_current(_depth);
+    }
+    let res = parser.parse_next(&mut input);
+    finish(s.len(), &input, res)
+}
+
+#[inline]
+fn run<'i, O>(parser: impl ModalParser<Input<'i>, O, ContextError>, s: &'i str) -> Outcome<O> {
+    run_at_depth(parser, s, 0)
+}
+
+macro_rules! kernels {
+    ($( $name:ident = $path:path => $out:ty; )*) => {
+        $(
+            pub fn $name<'i>(s: &'i str) -> Outcome<$out> {
+                run($path, s)
+            }
+        )*
+    };
+}
+
+kernels! {
+    // trivia.rs
+    ws = trivia::ws => &'i str;
+    comment = trivia::comment => ();
+    newline = trivia::newline => ();
+    ws_newline = trivia::ws_newline => ();
+    ws_newlines = trivia::ws_newlines => ();
+    ws_comment_newline = trivia::ws_comment_newline => ();
+    line_ending = trivia::line_ending => ();
+    line_trailing = trivia::line_trailing => std::ops::Range<usize>;
+    // numbers.rs
+    boolean = numbers::boolean => bool;
+    true_ = numbers::true_ => bool;
+    false_ = numbers::false_ => bool;
+    integer = numbers::integer => i64;
+    dec_int = numbers::dec_int => &'i str;
+    hex_int = numbers::hex_int => &'i str;
+    oct_int = numbers::oct_int => &'i str;
+    bin_int = numbers::bin_int => &'i str;
+    float = numbers::float => f64;
+    float_ = numbers::float_ => &'i str;
+    frac = numbers::frac => &'i str;
+    zero_prefixable_int = numbers::zero_prefixable_int => &'i str;
+    exp = numbers::exp => &'i str;
+    special_float = numbers::special_float => f64;
+    inf = numbers::inf => f64;
+    nan = numbers::nan => f64;
+    digit = numbers::digit => u8;
+    hexdig = numbers::hexdig => u8;
+    // datetime.rs
+    date_time = datetime::date_time => crate::Datetime;
+    full_date = datetime::full_date => crate::Date;
+    partial_time = datetime::partial_time => crate::Time;
+    time_offset = datetime::time_offset => crate::Offset;
+    date_fullyear = datetime::date_fullyear => u16;
+    date_month = datetime::date_month => u8;
+    date_mday = datetime::date_mday => u8;
+    time_delim = datetime::time_delim => u8;
+    time_hour = datetime::time_hour => u8;
+    time_minute = datetime::time_minute => u8;
+    time_second = datetime::time_second => u8;
+    time_secfrac = datetime::time_secfrac => u32;
+    // strings.rs
+    string = strings::string => Cow<'i, str>;
+    basic_string = strings::basic_string => Cow<'i, str>;
+    basic_chars = strings::verif::basic_chars_ => Cow<'i, str>;
+    escaped = strings::verif::escaped_ => char;
+    escape_seq_char = strings::verif::escape_seq_char_ => char;
+    hexescape4 = strings::hexescape::<4> => char;
+    hexescape8 = strings::hexescape::<8> => char;
+    ml_basic_string = strings::verif::ml_basic_string_ => Cow<'i, str>;
+    ml_basic_body = strings::verif::ml_basic_body_ => Cow<'i, str>;
+    mlb_content = strings::verif::mlb_content_ => Cow<'i, str>;
+    mlb_quotes_body = strings::verif::mlb_quotes_body_ => &'i str;
+    mlb_quotes_end = strings::verif::mlb_quotes_end_ => &'i str;
+    mlb_escaped_nl = strings::verif::mlb_escaped_nl_ => ();
+    literal_string = strings::literal_string => &'i str;
+    ml_literal_string = strings::verif::ml_literal_string_ => Cow<'i, str>;
+    ml_literal_body = strings::verif::ml_literal_body_ => &'i str;
+    mll_content = strings::verif::mll_content_ => u8;
+    mll_quotes_body = strings::verif::mll_quotes_body_ => &'i str;
+    mll_quotes_end = strings::verif::mll_quotes_end_ => &'i str;
+    // key.rs
+    unquoted_key = key::verif::unquoted_key_ => &'i str;
+    simple_key = key::simple_key => (crate::RawString, crate::InternalString);
+    key_path = key::key => Vec<crate::Key>;
+    // value.rs
+    value = value::value => crate::Value;
+}
+
+/// `value` entered with `depth` containers already open
+pub fn value_at_depth(s: &str, depth: usize) -> Outcome<crate::Value> {
+    run_at_depth(value::value, s, depth)
+}
+
+/// The real byte-class tables of the grammar
+#[derive(Debug, Clone, Copy, PartialEq, Eq)]
+pub enum Class {
+    Wschar,
+    NonAscii,
+    NonEol,
+    BasicUnescaped,
+    MlbUnescaped,
+    LiteralChar,
+    MllChar,
+    UnquotedChar,
+    Digit,
+    Digit19,
+    Digit07,
+    Digit01,
+    Hexdig,
+    DatetimeDigit,
+    TimeDelim,
+}
+
+pub fn class_contains(class: Class, b: u8) -> bool {
+    match class {
+        Class::Wschar => trivia::WSCHAR.contains_token(b),
+        Class::NonAscii => trivia::NON_ASCII.contains_token(b),
+        Class::NonEol => trivia::NON_EOL.contains_token(b),
+        Class::BasicUnescaped => strings::BASIC_UNESCAPED.contains_token(b),
+        Class::MlbUnescaped => strings::MLB_UNESCAPED.contains_token(b),
+        Class::LiteralChar => strings::LITERAL_CHAR.contains_token(b),
+        Class::MllChar => strings::verif::class_mll_char(b),
+        Class::UnquotedChar => key::verif::class_unquoted_char(b),
+        Class::Digit => numbers::verif::class_digit(b),
+        Class::Digit19 => numbers::verif::class_digit1_9(b),
+        Class::Digit07 => numbers::verif::class_digit0_7(b),
+        Class::Digit01 => numbers::verif::class_digit0_1(b),
+        Class::Hexdig => numbers::HEXDIG.contains_token(b),
+        Class::DatetimeDigit => datetime::verif::class_digit(b),
+        Class::TimeDelim => datetime::verif::class_time_delim(b),
+    }
+}
+
+/// `error.rs::translate_position`
+pub fn translate_position(input: &[u8], index: usize) -> (usize, usize) {
+    crate::error::verif_translate_position(input, index)
+}
+
+/// `RecursionCheck` (parser/mod.rs), one step at a time
+#[cfg(not(feature = "unbounded"))]
+pub mod recursion {
+    use crate::parser::prelude::*;
+
+    pub fn limit() -> usize {
+        RecursionCheck::VERIF_LIMIT
+    }
+
+    /// `check_depth(depth).is_ok()`
+    pub fn check_depth(depth: usize) -> bool {
+        RecursionCheck::check_depth(depth).is_ok()
+    }
+
+    /// `enter()` from `current`: (`is_ok`, counter afterwards)
+    pub fn enter(current: usize) -> (bool, usize) {
+        let mut c = RecursionCheck::verif_with_current(current);
+        let ok = c.verif_enter();
+        (ok, c.verif_current())
+    }
+
+    /// `exit()` from `current`: counter afterwards
+    pub fn exit(current: usize) -> usize {
+        let mut c = RecursionCheck::verif_with_current(current);
+        c.verif_exit();
+        c.verif_current()
+    }
+
+    /// What a stub parser under `check_recursion` should do
+    #[derive(Debug, Clone, Copy, PartialEq, Eq)]
+    pub enum Stub {
+        Ok,
+        Backtrack,
+        Cut,
+    }
+
+    /// `check_recursion(stub)` entered at `current`: (outcome tag, counter seen by the inner
+    /// parser if it ran, counter afterwards). Tags: 0 = Ok, 1 = Backtrack, 2 = Cut
+    pub fn guarded(current: usize, stub: Stub) -> (u8, Option<usize>, usize) {
+        let mut input = new_input("");
+        input.state = RecursionCheck::verif_with_current(current);
+        let mut seen = None;
+        let res = check_recursion(|i: &mut Input<'_>| -> ModalResult<()> {
+            seen = Some(i.state.verif_current());
+            match stub {
+                Stub::Ok => Ok(()),
+                Stub::Backtrack => Err(winnow::error::ErrMode::Backtrack(ContextError::new())),
+                Stub::Cut => Err(winnow::error::ErrMode::Cut(ContextError::new())),
+            }
+        })
+        .parse_next(&mut input);
+        let tag = match res {
+            Ok(()) => 0,
+            Err(winnow::error::ErrMode::Backtrack(_)) => 1,
+            Err(_) => 2,
+        };
+        let after = input.state.verif_current();
+        (tag, seen, after)
+    }
+}
